@@ -215,8 +215,9 @@ class ColumnProfile:
                 new_profile.histogram = distogram.merge(profile_dgram, my_dgram).bins
             else:
                 new_profile.histogram = distogram.merge(my_dgram, profile_dgram).bins
-        else:
-            new_profile.histogram = []
+        elif profile.histogram:
+            # nothing to merge into: keep the only histogram there is (ours is already copied)
+            new_profile.histogram = list(profile.histogram)
 
         if self.kmv_hashes and profile.kmv_hashes:
             new_profile.kmv_hashes = sorted(set(self.kmv_hashes + profile.kmv_hashes))[:KVM_SIZE]
